@@ -97,6 +97,39 @@ def random_shard(spec, seed, count):
     return acc
 
 
+def corner_shard(spec, idx, nshards, seed, per_row):
+    """row-directed: for every reference row, words whose fields take corner values (0, 1, max, max-1, single bits) in every combination
+    of "one field at a corner, the others random" - the special cases of operand extraction (imm5 == 0 means 32, rotation 0, register 15,
+    all-ones register lists, ...) sit at these corners and a uniformly random word reaches each with probability 2^-width"""
+    spec = get_spec(spec)
+    acc = Acc()
+    rng = random.Random(seed)
+    cpu = spec.cpu()
+    for j, row in enumerate(spec.table):
+        if j % nshards != idx or row.cls in (UNDEF, NOTIMPL, UNPRED, NOPISH, dc.HINTISH):
+            continue
+        letters = sorted(row.fields)
+        for k in letters:
+            width = len(row.fields[k])
+            mx = (1 << width) - 1
+            corners = sorted({0, 1, mx, mx - 1 if mx else 0, 1 << (width - 1), (1 << (width - 1)) - 1 if width > 1 else 0} | {1 << b for b in range(width)})
+            for cv in corners:
+                for _ in range(per_row):
+                    f = {l: rng.getrandbits(len(row.fields[l])) for l in letters}
+                    f[k] = cv
+                    if rng.random() < 0.5:
+                        k2 = rng.choice(letters)
+                        f[k2] = rng.choice((0, (1 << len(row.fields[k2])) - 1))
+                    w = row.build(**f)
+                    row2, _ = table_decode(spec.table, w)
+                    if row2 is not row:
+                        acc.cls('corner:other-row-has-priority')
+                        continue
+                    a = dc.outcome_of(spec.decoder, w)
+                    check_word(acc, spec, cpu, w, a, row, 'field-corner', rng)
+    return acc
+
+
 def replay_word(spec, w):
     acc = Acc()
     cpu = spec.cpu()
